@@ -11,6 +11,7 @@ package main
 
 import (
 	"fmt"
+	"go/token"
 	"go/types"
 	"sort"
 	"strings"
@@ -200,4 +201,109 @@ func (e *EngineB) explainInput(res locset) string {
 		}
 	}
 	return "(path not reconstructed)"
+}
+
+// ruleRejectBeforeWrite: B3.  In the entry function every instruction that may
+// write the receiver's memory (directly, or through a callee that does) is
+// dominated by the passing edge of the named guard call.
+func ruleRejectBeforeWrite(entryKey, guardCallee string) ruleFunc {
+	return func(c *Ctx) {
+		c.R.Rule("B3: in " + entryKey + " every store to the receiver's memory, and every call that can reach such a store, is dominated by the passing edge of the " + guardCallee + " test: a rejected operation has written nothing")
+		e := solveEntry(c, "B3-reject-before-write", effectEntry{key: entryKey})
+		if e == nil {
+			return
+		}
+		fn := e.entry
+		// functions that write Input, transitively
+		writesInput := map[*ssa.Function]bool{}
+		for _, w := range e.writes {
+			if w.loc.o.kind == oInput {
+				writesInput[w.fn] = true
+			}
+		}
+		for changed := true; changed; {
+			changed = false
+			for _, f := range e.reach {
+				if writesInput[f] {
+					continue
+				}
+				for _, b := range f.Blocks {
+					for _, in := range b.Instrs {
+						if call, ok := in.(ssa.CallInstruction); ok {
+							for _, callee := range e.callees(call) {
+								if writesInput[callee] && !writesInput[f] {
+									writesInput[f] = true
+									changed = true
+								}
+							}
+						}
+					}
+				}
+			}
+		}
+		// guard
+		var pass *ssa.BasicBlock
+		for _, b := range fn.Blocks {
+			ifi, ok := b.Instrs[len(b.Instrs)-1].(*ssa.If)
+			if !ok {
+				continue
+			}
+			cond := ifi.Cond
+			neg := false
+			for {
+				u, ok := cond.(*ssa.UnOp)
+				if !ok || u.Op != token.NOT {
+					break
+				}
+				neg = !neg
+				cond = u.X
+			}
+			call, ok := cond.(*ssa.Call)
+			if !ok {
+				continue
+			}
+			if cal := call.Call.StaticCallee(); cal != nil && ShortKey(FuncKey(cal)) == guardCallee {
+				if neg {
+					pass = b.Succs[1]
+				} else {
+					pass = b.Succs[0]
+				}
+			}
+		}
+		if pass == nil {
+			c.R.Unknown("B3-reject-before-write", entryKey+"#guard", c.P.Pos(fn.Pos()), "the "+guardCallee+" test was not found in "+entryKey)
+			return
+		}
+		n := 0
+		for _, b := range fn.Blocks {
+			for _, in := range b.Instrs {
+				writing := ""
+				switch x := in.(type) {
+				case *ssa.Store:
+					for l := range e.get(x.Addr) {
+						if l.o.kind == oInput {
+							writing = "store to the receiver's memory"
+						}
+					}
+				case ssa.CallInstruction:
+					for _, callee := range e.callees(x) {
+						if writesInput[callee] {
+							writing = "call to " + ShortKey(FuncKey(callee)) + ", which writes the receiver's memory"
+						}
+					}
+				}
+				if writing == "" {
+					continue
+				}
+				n++
+				cons := entryKey + "#" + instrOrdinal(in)
+				if pass.Dominates(b) {
+					c.R.OK("B3-reject-before-write", cons, c.P.InstrPos(in), writing+" happens only after the guard passed")
+				} else {
+					c.R.Bad("B3-reject-before-write", cons, c.P.InstrPos(in), writing+" is not dominated by the passing edge of "+guardCallee+": a rejected call may already have changed the tree")
+				}
+			}
+		}
+		c.R.Floor("B3-reject-before-write", n, 3)
+	}
 }
